@@ -71,7 +71,7 @@ theorem registerAlias_equiv {i j : Info} (h : Info.Equiv i j) (pub : Bool) (pre 
     simp only [Bool.false_eq_true, ↓reduceIte]
     exact ⟨h.vis, h.ctx, by simp [h.alias], h.wild, h.loaded, h.fileErrs⟩
   | true =>
-    simp only [↓reduceIte]
+    simp only [↓reduceIte, h.vis m]
     exact ⟨get?_cons_congr _ h.vis, h.ctx, by simp [h.alias], h.wild, h.loaded, h.fileErrs⟩
 
 theorem processUse_equiv {i j : Info} (h : Info.Equiv i j) (pub : Bool) (path : List Name) (t : UseTarget)
@@ -159,7 +159,7 @@ theorem convertQVar_equiv {i j : Info} (h : Info.Equiv i j) (known : Sym → Boo
   have hp : ∀ key path, privErr cur i.vis key path = privErr cur j.vis key path := by
     intro key path; unfold privErr; rw [h.vis]
   unfold convertQVar
-  simp only [h.alias, hp]
+  simp only [h.alias, h.vis, hp]
 
 theorem convertExpr_equiv {i j : Info} (h : Info.Equiv i j) (known : Sym → Bool) (e : Expr) :
     ∀ cur ls, convertExpr i known cur ls e = convertExpr j known cur ls e := by
@@ -293,9 +293,18 @@ theorem resolveUseMangled_addBinder (i : Info) (v : Option (Sym × Bool)) (c : O
   rw [resolveQualifiedPath_congr segs segs pre _ i.has (has_addBinder i v c K hv hc _ h1)
     (has_addBinder i v c K hv hc _ h2)]
 
-/-- `register_alias` commutes with a binder whose key is not the exported name -/
+theorem resolveUseMangled_cases (segs pre : List Name) (i : Info) :
+    resolveUseMangled segs pre i = segs ∨ resolveUseMangled segs pre i = pre ++ segs := by
+  unfold resolveUseMangled
+  rcases resolveQualifiedPath_cases segs pre i.has with h | ⟨_, h⟩ <;> rw [h]
+  · exact Or.inl rfl
+  · exact Or.inr rfl
+
+/-- `register_alias` commutes with a binder whose key is neither the exported name nor the target (whose visibility
+entry the re-export reads since /repo c6822e4) -/
 theorem registerAlias_addBinder (i : Info) (v : Option (Sym × Bool)) (c : Option (Sym × List Name)) (K : Sym)
-    (hv : ∀ p, v = some p → p.1 = K) (pub : Bool) (pre : List Name) (a : Name) (m : Sym) (hk : pre ++ [a] ≠ K) :
+    (hv : ∀ p, v = some p → p.1 = K) (pub : Bool) (pre : List Name) (a : Name) (m : Sym) (hk : pre ++ [a] ≠ K)
+    (hm : m ≠ K) :
     Info.Equiv (registerAlias (addBinder i v c) pub pre a m) (addBinder (registerAlias i pub pre a m) v c) := by
   unfold registerAlias
   cases pub with
@@ -308,6 +317,9 @@ theorem registerAlias_addBinder (i : Info) (v : Option (Sym × Bool)) (c : Optio
     | none => rfl
     | some p =>
       simp only [addBinder]
+      have hpm : get? (p :: i.vis) m = get? i.vis m := by
+        rw [get?_cons, if_neg]; rw [hv p rfl]; exact fun h => hm h.symm
+      rw [hpm]
       apply get?_swap
       rw [hv p rfl]
       exact hk
@@ -327,7 +339,10 @@ theorem foldl_registerAlias_addBinder (v : Option (Sym × Bool)) (c : Option (Sy
     obtain ⟨h1, h2, h3⟩ := hn n List.mem_cons_self
     apply ih _ _ _ (fun m hm => hn m (List.mem_cons_of_mem _ hm))
     rw [resolveUseMangled_equiv h, resolveUseMangled_addBinder I v c K hv hc _ _ h1 h2]
-    exact (registerAlias_equiv h ..).trans (registerAlias_addBinder I v c K hv pub pre n _ h3)
+    refine (registerAlias_equiv h ..).trans (registerAlias_addBinder I v c K hv pub pre n _ h3 ?_)
+    rcases resolveUseMangled_cases (path ++ [n]) pre I with e | e <;> rw [e]
+    · exact h1
+    · exact h2
 
 theorem processUse_addBinder (i : Info) (v : Option (Sym × Bool)) (c : Option (Sym × List Name)) (K : Sym)
     (hv : ∀ p, v = some p → p.1 = K) (hc : ∀ p, c = some p → p.1 = K) (pub : Bool) (path : List Name)
@@ -345,7 +360,10 @@ theorem processUse_addBinder (i : Info) (v : Option (Sym × Bool)) (c : Option (
       obtain ⟨h1, h2, h3⟩ := hK
       simp only
       rw [resolveUseMangled_addBinder i v c K hv hc _ _ (Ne.symm h1) (Ne.symm h2)]
-      exact registerAlias_addBinder i v c K hv pub pre a _ (Ne.symm h3)
+      refine registerAlias_addBinder i v c K hv pub pre a _ (Ne.symm h3) ?_
+      rcases resolveUseMangled_cases path pre i with e | e <;> rw [e]
+      · exact Ne.symm h1
+      · exact Ne.symm h2
   | wildcard => exact Info.Equiv.of_eq rfl
   | multiple names =>
     simp only
